@@ -370,3 +370,23 @@ reg("C25",
     "right). Known: go_every ignores a user-defined space; fusion across "
     "different index offsets.",
     "DESIGN.md §5 C25")
+
+reg("C22",
+    "reference-model monitor (halo-state shadow from the documented "
+    "semantics) over the event trace of the generated PSy layer, all initial "
+    "halo states enumerated",
+    "Distributed-memory PSy layers generated from the repository's LFRic "
+    "algorithm files and from generated kernel/algorithm combinations, after "
+    "random accepted histories of redundant computation, colouring, async "
+    "halo exchange, move and OpenMP transformations, are executed abstractly "
+    "(the invoke is straight-line code branching only on is_dirty guards): "
+    "for every initial (clean depth, annexed) state of every field, each "
+    "read must find the depth it needs clean and each recorded state must be "
+    "no cleaner than what the loop computed. Thorough tier validates the "
+    "text executor against real runs with a logging infrastructure overlay.",
+    "The oracle is my reading of the developer guide's halo rules (DESIGN.md "
+    "C22 table; ambiguous cases take the weaker requirement); halo values are "
+    "not computed; constructs the strict parser does not recognise are "
+    "counted and skipped. Three known findings, each contradicting a quoted "
+    "guide sentence.",
+    "DESIGN.md §5 C22")
